@@ -85,7 +85,7 @@ func genC10(dir, tier string, seed int64) {
 	r := rand.New(rand.NewSource(seed))
 	per := 60
 	if tier == "thorough" {
-		per = 1500
+		per = 5000
 	}
 	cw := newCaseWriter(dir, "C10_ops", opHeader("CheckC10"), opFooter,
 		"16 float operators x seeded random cases: shapes of rank 0..4 (<= 12 elements), float32 and float64, every element either a special value (+-0, +-1, +-Inf, NaN, subnormals, largest finite, just inside/outside [-1,1], arguments that overflow exp/sinh/cosh, multiples of pi) or random with magnitudes 1e-30..1e4; Abs and PRelu also on the integer types their gates accept; PRelu slopes of every unidirectionally broadcastable shape (incl. (C,1,1)-style) and non-broadcastable ones; the first cases of every operator sweep the special values one by one; Not on bool tensors", false, 120)
